@@ -60,6 +60,7 @@ class EngineP(EngineBase):
         self.short_texts = sorted({x for _, p in self.corpus_short + self.compounds for x in p} | set(corpus.MICRO) | set(BROKEN))
         # anything whose trees are already in the on-disk cache costs nothing in memo-parse runs
         self.corpus_cached = sorted((n, p) for n, p in beh.items() if all(x in self.tc.data for x in p))
+        self.cached_ok_texts = sorted({x for _, p in self.corpus_cached for x in p if self.tc.data[x][0] == "ok"})
 
     # ------------------------------------------------------------------ reference (sequential, harness-owned)
     def ref_parse(self, text):
@@ -122,7 +123,11 @@ class EngineP(EngineBase):
                 name, parts = f"z{i}", []
             elif kind == "multi":
                 name = f"x{i}"
-                parts = [ch.choice(corpus.MICRO, "multi") for _ in range(ch.randint(2, 4, "nparts"))]
+                if mode == "memoparse" and self.cached_ok_texts and ch.chance(1, 2, "longmulti"):
+                    # parts of any length (trees come from the cache): several *long* parts under one name
+                    parts = [ch.choice(self.cached_ok_texts, "multi-long") for _ in range(ch.randint(2, 4, "nparts"))]
+                else:
+                    parts = [ch.choice(corpus.MICRO, "multi") for _ in range(ch.randint(2, 4, "nparts"))]
             elif kind == "broken":
                 name = f"b{i}"
                 good = [ch.choice(corpus.MICRO, "bgood") for _ in range(ch.randint(0, 2, "bpre"))]
